@@ -564,7 +564,7 @@ def gen_malformed(op, tier, rng):
 
 
 def gen_random(op, tier, rng):
-    for _ in range(5000 if tier == "thorough" else 300):
+    for _ in range(5000 if tier == "thorough" else 700):
         L = rng.randint(1, 6 if tier == "thorough" else 5)
         ts = []
         for _ in range(rng.randint(1, 3)):
